@@ -38,15 +38,24 @@ def run_mode(ctx, mode, n, wrap):
             fl, cl = row[2 * k], row[2 * k + 1]
             classes[cl] = classes.get(cl, 0) + 1
             if fl:
-                bad.append((c, fl, [smp[k]["X"] / 2.0**30, smp[k]["Y"] / 2.0**30]))
+                bad.append((c, fl, [smp[k]["X"] / 2.0**30, smp[k]["Y"] / 2.0**30, k]))
     for c in crashed:
         bad.append((c, -1, None))
     return cases, live, bad, classes
 
 
-def match_known(known, c, fl):
+def match_known(known, c, fl, p=None):
     for f in known:
         t = f.get("trigger", {})
+        if t.get("ellipse"):
+            # exact trigger: an eccentric elliptical arc in the input, and the sample lies in the band around w/2 that the substituted
+            # ellipse can be off by (computed per case by the harness from the true parallel curve)
+            err = c["desc"].get("ellipse_offset_error", 0)
+            if err > 0 and fl in t["flags_any"] and p is not None and len(p) == 3 and c["desc"].get("sample_dist"):
+                hw = abs(c["desc"]["offset"]) if "offset" in c["desc"] else c["desc"]["width"] / 2
+                if abs(c["desc"]["sample_dist"][p[2]] - hw) <= 1.5 * err + 0.03:
+                    return f
+            continue
         if t.get("flags") == fl and (not t.get("joins") or c["desc"].get("join") in t["joins"]):
             return f
     return None
@@ -67,16 +76,20 @@ def run(ctx):
     allbad = [(c, fl, p, "Stroke") for c, fl, p in sbad] + [(c, fl, p, "Offset") for c, fl, p in obad]
     allbad.sort(key=lambda t: len(t[0]["desc"]["path"]))
     for c, fl, p, op in allbad:
-        f = match_known(known, c, fl) if op == "Stroke" else None
+        f = match_known(known, c, fl, p) if (op == "Stroke" or c["desc"].get("ellipse_offset_error")) else None
+        p = p[:2] if p else p
         if f:
             if f["key"] not in seen:
                 seen.add(f["key"])
-                ctx.known_finding("%s (e.g. Stroke(%s, %s, %s, limit %s) of %s at %s)" % (f["what"], c["desc"].get("width"), c["desc"].get("cap"),
-                                                                                          c["desc"].get("join"), c["desc"].get("limit"), c["desc"]["path"], p))
+                if op == "Stroke":
+                    ctx.known_finding("%s (e.g. Stroke(%s, %s, %s, limit %s) of %s at %s)" % (f["what"], c["desc"].get("width"), c["desc"].get("cap"),
+                                                                                              c["desc"].get("join"), c["desc"].get("limit"), c["desc"]["path"], p))
+                else:
+                    ctx.known_finding("%s (e.g. Offset(%s) of %s at %s)" % (f["what"], c["desc"].get("offset"), c["desc"]["path"], p))
             continue
         if reported < 3:
             d = dict(kind="property-fails-on-implementation", what=what.get(fl, "flags %d" % fl), op=op, seed=ctx.seed, index=c["i"], family=c["fam"], sample=p, flags=fl)
-            d.update({k: v for k, v in c["desc"].items() if k != "samples_units_2^-30"})
+            d.update({k: v for k, v in c["desc"].items() if k not in ("samples_units_2^-30", "sample_dist")})
             ctx.violation(d, "%s: %s of %s" % (what.get(fl, fl), op, c["desc"]["path"]))
         reported += 1
     judged = sum(v for k, v in scls.items() if k in (1, 2, 3, 5, 8)) + sum(v for k, v in ocls.items() if k in (1, 2))
